@@ -482,6 +482,18 @@ namespace c11
     }
     return false;
   }
+  /// SurfaceMesh triangulation with a degenerate triangle (repeated vertex) or an edge used by more than two triangle sides
+  inline bool cls_surfmesh_nonmanifold(const Sketch& sk)
+  {
+    std::map<int, std::map<std::pair<unsigned long long, unsigned long long>, int>> edges;   // per <Triangles> block (index of its open line)
+    for(auto& l : sk.lines) if(!l.markup && !l.comment && sk.in(l, "SurfaceMesh", "Triangles"))
+    {
+      auto tk = split_ws(l.txt); if(tk.size() < 3) continue; unsigned long long v[3]; bool ok = true; for(int k = 0; k < 3; ++k) ok = ok && parse_index(tk[(size_t)k], v[k]); if(!ok) continue;
+      if(v[0] == v[1] || v[1] == v[2] || v[0] == v[2]) return true;
+      for(int k = 0; k < 3; ++k) { auto e = std::make_pair(std::min(v[k], v[(k + 1) % 3]), std::max(v[k], v[(k + 1) % 3])); if(++edges[l.ctx.back()][e] > 2) return true; }
+    }
+    return false;
+  }
   /// mesh part mapping entry that is >= the number of entities the (first) root mesh declares for that dimension,
   /// or any mapping in a file whose parts cannot be checked against a mesh
   inline bool cls_mapping_index(const Sketch& sk)
